@@ -496,6 +496,32 @@ fn strip_leading_bom_item(items: &mut Vec<Item>) {
     }
 }
 
+/// C09, forwarding clause: the tree builder must have told the sink the line of the token it is
+/// processing before any tree-changing sink call made for that token (tree corpus with line breaks in
+/// every position, one-piece and one-cut schedules)
+pub fn line_forwarding(ctx: &Ctx) -> (u64, u64) {
+    let mut corpus: Vec<(TreeCfg, String)> = tree_corpus(ctx.tier);
+    for s in ["\n<p>\n<b>\nx\n</b>\n</p>\n", "<table>\nx\n<tr>\n<td>\ny", "<!--\n--><!DOCTYPE html>\n<html>\n<head>\n<title>\nt</title>\n</head>\n<body>\n", "<a\nhref='\n'>\n<svg>\n<g\n/>\n", "\r\n<p>\r<i>\r\n\r</p>x", "<pre>\n\n<b>", "<script>\n</script>\n<p>", "<template>\n<td>\n</template>\n<div>"] {
+        corpus.push((TreeCfg::default(), s.to_string()));
+    }
+    let checked = AtomicU64::new(0);
+    let runs = AtomicU64::new(0);
+    corpus.par_iter().for_each(|(cfg, input)| {
+        let n = input.chars().count();
+        for s in chunkings(input, if n > 24 { 0 } else { 1 }, 0) {
+            runs.fetch_add(1, Ordering::Relaxed);
+            if let Ok(o) = guarded(|| run_tree(cfg, &s, &Env::default(), true)) {
+                let sink = o.sink.as_ref().unwrap();
+                checked.fetch_add(sink.line_checked.get(), Ordering::Relaxed);
+                if let Some(m) = sink.line_problems.borrow().first() {
+                    ctx.violation("line-forwarding", &crate::e2::witness(cfg, &s, &Env::default()), json!({"message": m}));
+                }
+            }
+        }
+    });
+    (runs.load(Ordering::Relaxed), checked.load(Ordering::Relaxed))
+}
+
 pub fn main_c08(ctx: &Ctx) -> ! {
     let st = Stats { evals: AtomicU64::new(0), inputs: AtomicU64::new(0), outcomes: Mutex::new(BTreeSet::new()) };
     let max_cuts = ctx.tier.pick(1, 2);
